@@ -279,6 +279,8 @@ func parseMain(mode string, a args) {
 		parseGen(a)
 	case "c03":
 		parseC03(a)
+	case "c17":
+		parseC17(a)
 	default:
 		die("parse: unknown mode %q", mode)
 	}
@@ -500,4 +502,69 @@ func parseC03(a args) {
 	}
 	o.close()
 	fmt.Printf("{\"cases\":%d,\"skipped_budget\":%d}\n", n, skipped)
+}
+
+// ---- C17: call counts on the unambiguous families ---------------------------------------------------------
+
+func parseC17(a args) {
+	o := newOut(a.str("out", ""))
+	type c17case struct {
+		Fam    string  `json:"fam"`
+		N      int     `json:"n"`
+		G      []gnode `json:"G"`
+		W      []int   `json:"w"`
+		Root   int     `json:"root"`
+		Mcalls int     `json:"mcalls"`
+	}
+	built := map[string]*builtG{}
+	prev := map[string]int{}
+	n := 0
+	readLines(a.str("in", ""), func(line []byte) {
+		var c c17case
+		if err := json.Unmarshal(line, &c); err != nil {
+			die("bad case: %v", err)
+		}
+		b, ok := built[c.Fam]
+		if !ok {
+			t := &tracer{quiet: true, budget: 1 << 30}
+			b = &builtG{t: t, ps: build(c.G, t)}
+			built[c.Fam] = b
+		}
+		content := bytesOf(c.W)
+		// a run that needs more than 40x the calls of the largest smaller size of its family is stopped: its count
+		// is then already beyond what the doubling predicate allows, and the judge will say so
+		limit := 0
+		if prev[c.Fam] > 0 && c.N >= 8 {
+			limit = 40 * prev[c.Fam]
+		}
+		run := func() (calls int, ok bool) {
+			b.t.ev, b.t.stack, b.t.count, b.t.callLimit = nil, nil, 0, limit
+			b.t.attempts, b.t.nfails, b.t.bodyRuns = map[[2]int]bool{}, map[[2]int]bool{}, map[[2]int]int{}
+			f, fs := fileAt(content, 1)
+			ctx := parsley.NewContext(fs, text.NewReader(f))
+			defer func() {
+				if r := recover(); r != nil {
+					if _, isBig := r.(tooBig); !isBig {
+						panic(r)
+					}
+					calls, ok = ctx.CallCount(), true
+				}
+			}()
+			node, _, err := b.ps[c.Root-1].Parse(ctx, data.EmptyIntMap, f.Pos(0))
+			return ctx.CallCount(), node != nil && err == nil
+		}
+		e := J{"fam": c.Fam, "n": c.N, "mcalls": c.Mcalls}
+		if m := safely(func() {
+			c1, ok1 := run()
+			c2, ok2 := run()
+			e["calls1"], e["calls2"], e["ok"] = c1, c2, ok1 && ok2
+			prev[c.Fam] = c1
+		}); m != "" {
+			e["calls1"], e["calls2"], e["ok"], e["panic"] = 0, 0, false, m
+		}
+		o.put(e)
+		n++
+	})
+	o.close()
+	fmt.Printf("{\"cases\":%d}\n", n)
 }
